@@ -31,7 +31,7 @@ def workload(ck, quick):
         progs.append(("script:" + name, src, mods))
     try:
         from ..gen import profiles
-        n = 400 if quick else 8000
+        n = 400 if quick else 8000 * common.TS
         for name, src, m in profiles.gc_workload(ck.rng.fork("profiles"), n):
             progs.append((name, src, m))
     except ImportError:
@@ -129,7 +129,7 @@ def run(tier):
     from . import modelcheck
     rh = ck.rng.fork("host")
     hist = []
-    for i in range(250 if quick else 8000):
+    for i in range(250 if quick else 8000 * common.TS):
         steps, hmods = feat_repl.host_history(rh.fork(str(i)))
         hist.append({"name": "host/%d" % i, "steps": steps, "mods": hmods})
     checked, _ = modelcheck.check_programs(ck, hist, opts={"gc": "always", "quarantine": 1, "audit": 1}, sig_prefix="HostHistory")
